@@ -18,7 +18,7 @@ SPEC = {
              "distinct molecules with >=2 atoms, >=1 bond and at least one non-identity attribute (charge, coordinate, bond type != 1)"),
     "assumptions": ["the scratch flag 'explored' may appear on the serializer's argument with value False (the property allows exactly that)"],
     "monitors_required": ["c12_canon", "c12_canon_repeat", "c12_serialize", "c12_history_compare"],
-    "required_obs": {"quick": ["cov_in_place_edit_between_calls", "cov_noncontiguous_input_labels", "cov_foreign_attributes_with_common_names", "cov_other_drawing_same_identity", "cov_charged", "cov_bond_types", "cov_multi_component", "cov_corpus", "cov_foreign_attribute"]},
+    "required_obs": {"quick": ["cov_debug_logging_enabled", "cov_in_place_edit_between_calls", "cov_noncontiguous_input_labels", "cov_foreign_attributes_with_common_names", "cov_other_drawing_same_identity", "cov_charged", "cov_bond_types", "cov_multi_component", "cov_corpus", "cov_foreign_attribute"]},
     "watchdog_s": {"quick": 900, "thorough": 3600},
 }
 PLAN = {
